@@ -801,6 +801,10 @@ def process_world(ctx: Any, world: dict[str, Any], root: Path, builtin_forest: l
                 cli_cases.append((tl, fsets[i % len(fsets)]))
                 if i % 3 == 0 or n_cli > 20:
                     cli_cases.append((tl, ["--enable-all"]))
+        # targets whose dotted name merely EXTENDS another target's name (rvp3 / rvp3x, a.sub / a.sub2.b): both must be walked
+        sib = [[a, b] for a in universe for b in universe if a != b and b.startswith(a) and not covers(a, b)]
+        for tl in sib[:6]:
+            cli_cases.append((tl, ["--enable-all"]))
         for tl in rng.sample(ok_tl, min(len(ok_tl), max(0, n_cli - len(cli_cases)))):
             cli_cases.append((tl, rng.choice(fsets)))
     have = {(tuple(c["targets"]), tuple(c["flags"])) for c in cases}
